@@ -674,6 +674,11 @@ impl G2 {
                 self.feat("case");
                 self.small_int(rng, 0, 3);
                 self.st.pop();
+                if rng.chance(1, 3) {
+                    // a selector that carries tags (every number read from binary input does)
+                    self.w(rng.pick(&["^hex", "^{ 1 \"k\" ^}", "7 \"len\" insert-tag"]));
+                    self.feat("case-tagged-selector");
+                }
                 self.w("case");
                 let saved = self.st.clone();
                 for i in 0..rng.below(3) {
